@@ -874,6 +874,103 @@ def launcher_partial_start(sl):
         observe("nodes are launched in order up to the failing one", launched == list(range(fail_at)))
 
 
+def docker_partial_start(sl):
+    """the real DockerLauncher.start / stop over a model of docker-compose: node k's container does not come up (`up -d` fails) or comes up
+    but never gets healthy. Whatever was brought up by a start that fails is taken down again - the caller gets no handle to do it later"""
+    from esrally.mechanic import launcher
+
+    n = sl["nodes"]
+    fail_at = concrete(fresh_int("start_of_node_k_fails_(n_=_none)", 0, n))
+    never_healthy = bool(fresh_bool("the_failing_container_comes_up_but_never_gets_healthy")) if fail_at < n else False
+    up, downs, cmds = set(), [], []
+
+    def node_of(cmd):
+        return int(cmd.split("/nodes/")[1].split("/")[0])
+
+    class Process:
+        @staticmethod
+        def run_subprocess_with_logging(cmd, *a, **kw):
+            cmds.append(cmd)
+            i = node_of(cmd)
+            if cmd.endswith("up -d"):
+                if i == fail_at and not never_healthy:
+                    return 1
+                up.add(i)
+                return 0
+            if cmd.endswith("down"):
+                downs.append(i)
+                up.discard(i)
+                return 0
+            raise AssertionError(cmd)
+
+        @staticmethod
+        def run_subprocess_with_output(cmd, *a, **kw):
+            cmds.append(cmd)
+            if " ps -q" in cmd:
+                return ["container-%d" % node_of(cmd)]
+            i = int(cmd.split("id=container-")[1].split('"')[0])
+            return ["container-%d" % i] if (i in up and not (i == fail_at and never_healthy)) else []
+
+    class Tel:
+        def __init__(self, devices=None):
+            pass
+
+        def attach_to_node(self, node):
+            pass
+
+        def detach_from_node(self, node, running):
+            pass
+
+        def store_system_metrics(self, node, store):
+            pass
+
+    class TelNs:
+        Telemetry = Tel
+
+        @staticmethod
+        def add_metadata_for_node(store, node_name, host_name):
+            pass
+
+    class Watch:
+        def __init__(self):
+            self.t = 0
+
+        def start(self):
+            pass
+
+        def split_time(self):
+            self.t += 400
+            return self.t
+
+    class Clk:
+        @staticmethod
+        def stop_watch():
+            return Watch()
+
+    class Conf:
+        def __init__(self, i):
+            self.node_name, self.ip, self.binary_path = "rally-node-%d" % i, "127.0.0.1", "/nodes/%d/install" % i
+
+    dl = launcher.DockerLauncher(actors.Cfg(), clock=Clk)
+    with shadowed(launcher, (), extra={"process": Process, "telemetry": TelNs, "time": type("T", (), {"sleep": staticmethod(lambda s: None)})}):
+        try:
+            nodes = dl.start([Conf(i) for i in range(n)])
+            how = "ret"
+        except exceptions.LaunchError:
+            nodes, how = None, "raise"
+        core.trace("up", len(up))
+        core.note("containers still up / taken down", (sorted(up), downs))
+        if fail_at == n:
+            observe("all containers healthy: all nodes are handed to the caller", how == "ret" and [x.node_name for x in nodes] == ["rally-node-%d" % i for i in range(n)]
+                    and up == set(range(n)) and not downs)
+            dl.stop(nodes, None)
+            observe("stopping takes every container down exactly once", sorted(downs) == list(range(n)) and not up)
+        else:
+            observe("a container that does not come up healthy fails the start", how == "raise")
+            observe("no container that a failing start brought up is left running (the caller never gets a handle to take it down)", not up)
+            observe("no container is taken down twice", len(downs) == len(set(downs)))
+
+
 READS = [mechanic.MechanicActor.receiveMsg_StartEngine, mechanic.MechanicActor.receiveMsg_NodesStarted, mechanic.MechanicActor.receiveMsg_StopEngine,
          mechanic.MechanicActor.receiveMsg_NodesStopped, mechanic.MechanicActor.receiveMsg_BenchmarkFailure, mechanic.MechanicActor.receiveMsg_PoisonMessage,
          mechanic.MechanicActor.receiveMsg_ChildActorExited, mechanic.MechanicActor.on_all_nodes_started, mechanic.MechanicActor.on_all_nodes_stopped,
@@ -903,6 +1000,11 @@ HARNESSES = [
     Harness("launcher_partial_start", launcher_partial_start, "bounded-exhaustive", lambda tier: [{"nodes": k} for k in (1, 2, 3)], reads=READS,
             stubs=["ProcessLauncher._start_node (records a running pid or fails)", "psutil, telemetry, stop watch"],
             bounds={"nodes on the host": "1..3", "failing launch": "none or any position"}, doc="a start that fails half-way leaves no launched node behind"),
+    Harness("docker_partial_start", docker_partial_start, "bounded-exhaustive", lambda tier: [{"nodes": k} for k in (1, 2, 3)],
+            reads=READS + [__import__("esrally.mechanic.launcher", fromlist=["x"]).DockerLauncher.start, __import__("esrally.mechanic.launcher", fromlist=["x"]).DockerLauncher.stop],
+            stubs=["process.run_subprocess_* over a model of docker-compose (up -d / ps -q / docker ps health filter / down)", "telemetry, stop watch, sleep"],
+            bounds={"nodes on the host": "1..3", "failing start": "none or any position; `up -d` fails, or the container comes up and never gets healthy"},
+            doc="Docker: a start that fails half-way leaves no container behind; stop takes every container down once"),
     Harness("launcher_stop", launcher_stop, "bounded-exhaustive", lambda tier: [{"nodes": 1}, {"nodes": 2}], reads=READS,
             stubs=["psutil (process alive / gone / vanishing on terminate / needing a kill / vanishing on kill)", "telemetry recorder", "stop watch"],
             bounds={"nodes": "1..2", "fate per process": 5, "metrics store": "given or not"}, doc="ProcessLauncher.stop: every node exactly once, system metrics in any case"),
